@@ -232,6 +232,7 @@ JoinProd(rs) ==
 DeadKeys(q, devs) == {i \in 1..Len(q.keys) :
                         \/ "ordinal_ignored" \in devs /\ q.keys[i].k = "ord"
                         \/ "unprojected_ignored" \in devs /\ ~Projected(q.keys[i], q.sel)
+                             /\ ~("join_duplicate_name_key" \in devs /\ q.keys[i].k = "e" /\ q.keys[i].x = "c2")   \* readable as x.id
                         \/ "aggregate_keys_ignored" \in devs /\ q.keys[i].k = "e" /\ ~PlainColumn(q, q.keys[i].x)}
 LiveKeys(q, devs) ==
     IF "setop_first_column" \in devs THEN << [k |-> "ord", x |-> "1", d |-> q.keys[1].d] >>
